@@ -156,7 +156,7 @@ def c18_4(ctx):
         inner = [s for s in loops[0].body if isinstance(s, ast.If) and N(s.test) == NS('type(f.function) == type(self)')]
         if not inner or not any(isinstance(a, ast.Assign) and N(a.targets[0]) == 'f[_function]' and N(a.value) == 'f.function.function' for a in inner[0].body):
             ctx.fail(f, loops[0], 'a same-type wrapper deeper in the chain is not spliced out')
-        elif not any(isinstance(a, ast.Assign) and U(a.targets[0]) == 'f' and N(a.value) == 'f.function' for a in inner[0].orelse):
+        elif not any(isinstance(a, ast.Assign) and U(a.targets[0]) == 'f' and N(a.value) == 'f.function' for a in else_of(inner[0])):
             ctx.fail(f, loops[0], 'the walk down the chain does not advance')
     g = ctx.repo.fn('_decorators:wrapper.__call__')
     ctx.count(1, g.where())
@@ -196,7 +196,7 @@ def c18_6(ctx):
     first = [s for s in g.body if isinstance(s, ast.If)]
     if not first or N(first[0].test) != NS("hasattr(%s, 'fullargspec')" % g.params[0]) or N(first[0].body[0].value) != '%s.fullargspec' % g.params[0]:
         ctx.fail(g, g.node, 'getargspec does not consult the fullargspec attribute first')
-    elif N(first[0].orelse[0].value) != 'inspect.getfullargspec(%s)' % g.params[0]:
+    elif N(else_of(first[0])[0].value) != 'inspect.getfullargspec(%s)' % g.params[0]:
         ctx.fail(g, g.node, 'getargspec does not fall back to inspect.getfullargspec')
     h = ctx.repo.fn('_decorators:as_DictArgSpec')
     ctx.count(1, h.where())
